@@ -10,9 +10,9 @@ from .core import Ctx, Infra, casehash, log
 @pipeline
 def c10(ctx: Ctx):
     ctx.assumptions = [
-        "TLC; spec/RobustTraffic.tla spans the space: 26 legal-but-unusual document features x 44 request and 16 response mutations x MultiError; the oracle is the outcome alphabet",
-        "'any bytes' is sampled, structured by the spec, not exhausted; documents the library's own Validate rejects are outside the premise (counted, not judged)",
-        "harness/c10.go builds and loads each document (cached per feature set), constructs both routers, and runs FindRoute (both), ValidateRequest, ConvertErrors, ValidateResponse and the strict middleware with each call's panic recovered separately; 8 s watchdog; process death recorded by the runner",
+        "TLC; spec/RobustTraffic.tla spans 37 named legal-but-unusual document features x 55 request and 16 response mutations x MultiError; spec/RobustShapes.tla spans the structured product leaf schema (53) x wrap (18) x site (58) x value (59) x document modifier (40) x option set (17) x named feature x traffic mutations in five parts (183), emitted as strength-2 orthogonal arrays (every pair of atoms of every two dimensions), one array per mutation mode; the oracle is the outcome alphabet",
+        "'any bytes' is sampled, structured by the spec (pairwise over the structured dimensions), not exhausted; documents the library's own Validate rejects are outside the premise (counted, not judged)",
+        "harness/c10.go + c10s.go build and load each document, construct both routers, and run FindRoute (both), ValidateRequest (route of either router), ConvertErrors, the default error encoder, ValidateResponse, the reading of every returned error, the strict and lenient middleware and a second pass on the same document, each call's panic recovered separately; 20 s watchdog; 256 MB maximal stack; process death recorded by the runner; errors are read and the repeated passes made on traffic nested at most 500 deep",
     ]
     cases = os.path.join(ctx.scratch, "cases.ndjson")
     if ctx.replay:
@@ -20,11 +20,21 @@ def c10(ctx: Ctx):
     else:
         ctx.tlc("Gen_C10", "Gen_C10_%s.cfg" % ctx.tier, label="F generate features x mutations (BFS)")
         n = ctx.unquote(ctx.spec("cases.ndjson"), cases)
-        log("[gen] %d cases" % n)
+        # the structured universe (spec/RobustShapes.tla): orthogonal arrays; the seed is a constant of the generator
+        # (it offsets the columns), Python copies the cfg with Seed substituted
+        text = open(ctx.spec("Gen_C10S_%s.cfg" % ctx.tier)).read().replace("Seed = 1", "Seed = %d" % (ctx.seed % 50000))
+        open(ctx.spec("Gen_C10S_run.cfg"), "w").write(text)
+        ctx.tlc("Gen_C10S", "Gen_C10S_run.cfg", label="F generate structured cases (orthogonal arrays)")
+        shape = os.path.join(ctx.scratch, "cases_shape.ndjson")
+        ns = ctx.unquote(ctx.spec("cases_shape.ndjson"), shape)
+        with open(cases, "a") as f:
+            f.write(open(shape).read())
+        log("[gen] %d named feature x mutation cases + %d structured cases" % (n, ns))
+        ctx.extra["generator"] = dict(named_cases=n, structured_cases=ns)
         ctx.exhaustive = True
     ctx.build_driver()
     logp = os.path.join(ctx.scratch, "log.ndjson")
-    ctx.drive(cases, logp, shards=12, timeout=5400)
+    ctx.drive(cases, logp, shards=12, timeout=7200)
     rng = random.Random(ctx.seed)
     rejected_docs = 0
     for l in open(logp):
@@ -33,11 +43,12 @@ def c10(ctx: Ctx):
         if o["obs"].get("doc") != "ok":
             rejected_docs += 1
             continue
-        if o["c"]["muts"] or o["c"]["feats"]:
+        if o["c"].get("kind") == "shape" or o["c"]["muts"] or o["c"]["feats"]:
             ctx.nontrivial.add(casehash(o["c"]))
         if rng.random() < 6.0 / 4000:
             ctx.samples.append(dict(c=o["c"], obs=o["obs"]))
     ctx.extra["cases_with_document_rejected_by_library_not_judged"] = rejected_docs
     ctx.rule = ("BFS of spec/RobustTraffic.tla: feature sets of size <= MaxFeat x mutation sequences of length <= MaxMut (pairs of features with at most one "
-                "mutation) x request/response side x MultiError; non-trivial = at least one feature or mutation, document accepted by Validate")
-    ctx.validate("Trace_C10", "Trace_C10.cfg", logp, chunk_lines=3000)
+                "mutation) x request/response side x MultiError; plus the rows of the orthogonal arrays of spec/RobustShapes.tla (P = 59, one array per mutation mode, "
+                "columns offset by the seed); non-trivial = at least one feature or mutation or a structured case, document accepted by Validate")
+    ctx.validate("Trace_C10", "Trace_C10.cfg", logp, chunk_lines=2000)
